@@ -17,7 +17,7 @@ _cli.install_csv11(LIB)
 
 def targets(tier):
 	return [(RS + 'CSVResultsExporter.get_header',), (RS + 'CSVResultsExporter.get_row',), (RS + 'JSONResultsExporter._item_to_json',),
-	        (RS + 'JSONResultsExporter._taxon_to_json',), (RS + 'ResultsArchiveWriter._taxon_to_json',), (RS + 'ResultsArchiveWriter._genome_to_json',),
+	        (RS + 'JSONResultsExporter._taxon_to_json',), (RS + 'ResultsArchiveWriter._taxon_to_json',), (RS + 'ResultsArchiveWriter._genome_to_json',), (RS + 'JSONResultsExporter._genome_to_json',),
 	        (RS + 'CSVResultsExporter.__init__', None, {'format_opts': {}}, results.register_export), (RS + 'CSVResultsExporter.export', None, None, results.register_export)]
 
 
@@ -26,6 +26,7 @@ ASSUMPTIONS = []
 
 
 def register(reg):
+	taxonomy.register(reg)
 	results.register(reg)
 
 
